@@ -4,7 +4,7 @@ from __future__ import annotations
 
 import importlib
 
-CONTRACT_MODULES = ["contracts.curves", "contracts.groups", "contracts.closed", "contracts.fields", "contracts.ints", "contracts.purity", "contracts.hashing", "contracts.codec"]
+CONTRACT_MODULES = ["contracts.curves", "contracts.groups", "contracts.closed", "contracts.fields", "contracts.ints", "contracts.purity", "contracts.hashing", "contracts.codec", "contracts.ecdsa"]
 
 _COMMON_TRUST = [
     "CPython semantics as modelled in DESIGN.md section 3 (mathematical ints, bytes as octet sequences, static name resolution, no monkey-patching)",
@@ -73,6 +73,19 @@ PROPS = {
         text="For EVERY 384-bit word (pair of words) decompress_G1/G2 are proved to either raise ValueError or return a reduced on-curve point with z = 1 whose compression is exactly the input (soundness + canonicity, without trusting the square-root routines: their results are havocked and the code's own a-posteriori checks carry the proof), and to refuse exactly the malformed words; compress_G1/G2 are proved to produce the ZCash layout (flags in bits 383/382/381, sign = larger y, imaginary part first); round-trip completeness is proved from the square-root lemmas; the byte helpers give 48/96-byte big-endian strings.",
         note="Known finding D2 (x = 0 on G1) is excluded from the completeness obligation and re-executed concretely on every run. G2 completeness rests on the assumed lemma L-SQRT8.",
         design_ref="DESIGN.md section 8 C11"),
+    "C19": dict(level="proof", trusted=_COMMON_TRUST + ["contracts of jacobian_multiply / jacobian_add / from_jacobian / inv (proved under C18) are used at their call sites"],
+        assumptions=["A-PRIME: P and N prime", "A-ORDER(secp256k1): #E = N (forced by Hasse's theorem + N prime + N.G = O: closed facts), so every point has order dividing N",
+                     "L-SQRT34 (Lean Fields.lean): only for 'raises ONLY when r^3+7 is a non-residue'"],
+        text="ecdsa_raw_recover is executed symbolically for every hash, v, 0 <= r < P, s >= 0: it raises ValueError only for v outside {27,28}, r or s = 0 mod N, or a non-residue r^3+7; otherwise the lifted point has reduced on-curve coordinates with the parity v-27 (the precedence of `v % 2 ^ beta % 2` is taken from the AST), the preconditions of the Jacobian routines hold at the call sites, and the result Q satisfies (r mod N).Q = s.R - z.G, proved in module normal form with coefficients in the field Z/N (polyid). Uniqueness and 'the signature verifies for Q' are the Lean lemmas of lean/Ecdsa.lean.",
+        note="Integers modulo P are handled by z3 (with explicit congruence witnesses), scalars by polyid in Z/N.",
+        design_ref="DESIGN.md section 8 C19"),
+    "C06": dict(level="proof", trusted=_COMMON_TRUST, assumptions=[
+        "good(k) (A-HASH): k mod N != 0, x_R < N, r != 0, s != 0: hash-output facts that the code does not establish (no retry loop); density of the failure set ~2^-127",
+        "observation O1 (not a finding under the adopted reading): the nonce uses the hash octets as given; strict RFC 6979 bits2octets differs when OS2IP(msghash) >= N",
+        "A-PRIME, A-ORDER(secp256k1) as C19"],
+        text="deterministic_generate_k is proved equal to the RFC 6979 section 3.2 first candidate over an uninterpreted HMAC; ecdsa_raw_sign is proved to return r = x(k.G), s = +-k^-1(z + r d) mod N with 1 <= s <= N/2, v in {27,28} and v - 27 = parity(y_R) xor [s flipped]; the property-level lemma (polyid in Z/N) then gives: recover returns d.G, the other v gives another key, and the verification equation holds.",
+        note="All of this is under the ghost precondition good(k), listed as an assumption.",
+        design_ref="DESIGN.md section 8 C06"),
     "C17": dict(level="proof", trusted=_COMMON_TRUST, assumptions=[
         "A-ORDER: #E(F_p) = h1 r (forced by Hasse + r prime, eval) and #E'(F_p2) = h2 r (assumed; Hasse-interval cross-check by eval)",
         "A-STRUCT-G1: the cofactor part of E(F_p) has exponent dividing 1 - x (RFC 9380 section 8.8.1); needed only for 'clear_cofactor_G1 lands in the subgroup'",
